@@ -13,10 +13,12 @@ Local Arguments Nat.leb : simpl never.
 
 Lemma ty_eqb_eq a b : ty_eqb a b = true <-> a = b.
 Proof.
-  revert b; induction a as [lo hi| | |a IH|a IH|n|n]; intros [lo' hi'| | |b|b|m|m]; cbn [ty_eqb];
+  revert b; induction a as [lo hi| | |a IH|a IH| | |a IH|n|n]; intros [lo' hi'| | |b|b| | |b|m|m]; cbn [ty_eqb];
     split; intros H; try discriminate; try reflexivity.
   - apply andb_true_iff in H as [H1 H2]. apply Z.eqb_eq in H1, H2. congruence.
   - inversion H; subst. now rewrite !Z.eqb_refl.
+  - apply IH in H. congruence.
+  - inversion H; subst. now apply IH.
   - apply IH in H. congruence.
   - inversion H; subst. now apply IH.
   - apply IH in H. congruence.
@@ -92,6 +94,14 @@ Qed.
 
 Lemma value_eqb_refl a : value_eqb a a = true.
 Proof. now apply value_eqb_eq. Qed.
+
+Lemma value_eqb_sym a b : value_eqb a b = value_eqb b a.
+Proof.
+  destruct (value_eqb a b) eqn:E.
+  - apply value_eqb_eq in E; subst. symmetry. apply value_eqb_refl.
+  - destruct (value_eqb b a) eqn:E2; [|reflexivity]. apply value_eqb_eq in E2; subst.
+    rewrite value_eqb_refl in E. discriminate.
+Qed.
 
 Lemma opt_value_eqb_eq a b : opt_value_eqb a b = true <-> a = b.
 Proof.
@@ -320,19 +330,43 @@ Qed.
 
 (* ---- defaults ---- *)
 
-Definition default_of (a : attr) : value := match a_value a with Some v => v | None => VUndef end.
+(* the value an attribute contributes when none is given (fillValueSlice objectvalue.go:103, the trailing
+   positions of Get :119): undef for a given_or_derived attribute — whether or not it carries the implicit
+   value of an Optional type —, the declared value otherwise *)
+Definition eff_value (a : attr) : option value :=
+  if kind_eqb (a_kind a) KGivenOrDerived then Some VUndef else a_value a.
+
+Definition default_of (a : attr) : value := match eff_value a with Some v => v | None => VUndef end.
 
 (* the value an object holds for position i: stored, or (trailing positions) the attribute's value *)
 Definition lval (attrs : list attr) (vals : list value) (i : nat) : option value :=
   match nth_error vals i with
   | Some v => Some v
-  | None => match nth_error attrs i with Some a => a_value a | None => None end
+  | None => match nth_error attrs i with Some a => eff_value a | None => None end
   end.
 
-Lemma attr_wf_god a : attr_wf a = true -> kind_eqb (a_kind a) KGivenOrDerived = true -> a_value a = Some VUndef.
+Lemma is_opt_eff a : is_opt_attr a = match eff_value a with Some _ => true | None => false end.
 Proof.
-  unfold attr_wf. intros H Hk. apply andb_true_iff in H as [H _]. rewrite Hk in H. cbn [negb orb] in H.
-  now apply opt_value_eqb_eq in H.
+  unfold is_opt_attr, eff_value, has_value. destruct (kind_eqb (a_kind a) KGivenOrDerived); [reflexivity|].
+  now destruct (a_value a).
+Qed.
+
+Lemma is_opt_false_eff a : is_opt_attr a = false <-> eff_value a = None.
+Proof. rewrite is_opt_eff. destruct (eff_value a); split; intros H; congruence. Qed.
+
+Lemma is_opt_true_eff a : is_opt_attr a = true <-> eff_value a <> None.
+Proof. rewrite is_opt_eff. destruct (eff_value a); split; intros H; congruence. Qed.
+
+Lemma default_of_god a : kind_eqb (a_kind a) KGivenOrDerived = true -> default_of a = VUndef.
+Proof. intros H. unfold default_of, eff_value. now rewrite H. Qed.
+
+(* attribute.Default(v) implies that v is the value the attribute contributes *)
+Lemma is_default_eff a v : attr_wf a = true -> is_default a v = true -> eff_value a = Some v.
+Proof.
+  unfold attr_wf, is_default, eff_value. intros H Hd. apply andb_true_iff in H as [H _].
+  destruct (a_value a) as [d|]; [|discriminate]. apply value_eqb_eq in Hd. subst d.
+  destruct (kind_eqb (a_kind a) KGivenOrDerived); [|reflexivity]. cbn [negb orb] in H.
+  apply value_eqb_eq in H. now subst.
 Qed.
 
 Lemma attr_wf_constant a : attr_wf a = true -> a_kind a = KConstant -> exists v, a_value a = Some v.
@@ -341,32 +375,23 @@ Proof.
   destruct (a_value a); [eauto|discriminate].
 Qed.
 
-Lemma attr_wf_opt a : attr_wf a = true -> is_opt_attr a = has_value a.
-Proof.
-  intros H. unfold is_opt_attr. destruct (kind_eqb (a_kind a) KGivenOrDerived) eqn:Hk; [|reflexivity].
-  unfold has_value. now rewrite (attr_wf_god a H Hk).
-Qed.
-
-Lemma attr_wf_default a : attr_wf a = true ->
+Lemma fill_default a :
   (if kind_eqb (a_kind a) KGivenOrDerived then Ok VUndef
    else match a_value a with Some d => Ok d | None => Err EMissingRequiredAttribute end)
-  = match a_value a with Some d => Ok d | None => Err EMissingRequiredAttribute end.
-Proof.
-  intros H. destruct (kind_eqb (a_kind a) KGivenOrDerived) eqn:Hk; [|reflexivity].
-  now rewrite (attr_wf_god a H Hk).
-Qed.
+  = match eff_value a with Some d => Ok d | None => Err EMissingRequiredAttribute end.
+Proof. unfold eff_value. now destruct (kind_eqb (a_kind a) KGivenOrDerived). Qed.
 
 (* ---- Get ---- *)
 
 Lemma get_nth d vals i a :
-  nodup_str (map a_name (ai_attrs (d_info d))) = true -> attr_wf a = true ->
+  nodup_str (map a_name (ai_attrs (d_info d))) = true ->
   nth_error (ai_attrs (d_info d)) i = Some a ->
   get (mkObj d vals) (a_name a) =
   match lval (ai_attrs (d_info d)) vals i with Some v => Ok (Some v) | None => Err EAttributeHasNoValue end.
 Proof.
-  intros Hnd Hwf Hi. unfold get, lval. cbn [o_type o_vals]. rewrite (name_to_pos_nth _ i a Hnd Hi), Hi.
-  destruct (nth_error vals i); [reflexivity|].
-  destruct (kind_eqb (a_kind a) KGivenOrDerived) eqn:Hk; [now rewrite (attr_wf_god a Hwf Hk)|reflexivity].
+  intros Hnd Hi. unfold get, lval. cbn [o_type o_vals]. rewrite (name_to_pos_nth _ i a Hnd Hi), Hi.
+  destruct (nth_error vals i); [reflexivity|]. unfold eff_value.
+  destruct (kind_eqb (a_kind a) KGivenOrDerived); reflexivity.
 Qed.
 
 Lemma get_unknown d vals n :
@@ -468,15 +493,13 @@ Proof.
 Qed.
 
 Lemma fill_slots_spec attrs (f : attr -> option value) :
-  forallb attr_wf attrs = true ->
-  (forall a, In a attrs -> f a = None -> a_value a <> None) ->
+  (forall a, In a attrs -> f a = None -> eff_value a <> None) ->
   fill_slots (map f attrs) attrs = Ok (map (fun a => match f a with Some v => v | None => default_of a end) attrs).
 Proof.
-  induction attrs as [|a r IH]; intros Hwf Hreq; cbn [map fill_slots]; [reflexivity|].
-  cbn [forallb] in Hwf. apply andb_true_iff in Hwf as [Ha Hr].
-  rewrite IH; [|assumption|intros b Hb; apply Hreq; now right]. rewrite (attr_wf_default a Ha).
+  induction attrs as [|a r IH]; intros Hreq; cbn [map fill_slots]; [reflexivity|].
+  rewrite IH; [|intros b Hb; apply Hreq; now right]. rewrite (fill_default a).
   destruct (f a) as [v|] eqn:Ef; cbn [bind]; [reflexivity|].
-  unfold default_of. destruct (a_value a) as [d|] eqn:Ed; cbn [bind]; [reflexivity|].
+  unfold default_of. destruct (eff_value a) as [d|] eqn:Ed; cbn [bind]; [reflexivity|].
   exfalso. apply (Hreq a (or_introl eq_refl) Ef Ed).
 Qed.
 
@@ -547,14 +570,15 @@ Lemma forallb_nth {A} (f : A -> bool) l i a : forallb f l = true -> nth_error l 
 Proof. intros H Hi. rewrite forallb_forall in H. apply H. eapply nth_error_In; eauto. Qed.
 
 Lemma pfh_spec info h : info_wf info = true -> NoDup (map fst h) ->
-  (forall a, In a (ai_attrs info) -> a_value a = None -> hget h (a_name a) <> None) ->
+  (forall a, In a (ai_attrs info) -> is_opt_attr a = false -> hget h (a_name a) <> None) ->
   exists vals, positional_from_hash info h = Ok vals /\
     (ai_req info <= length vals <= length (ai_attrs info))%nat /\
     forall i a, nth_error (ai_attrs info) i = Some a -> lval (ai_attrs info) vals i = Some (given_or_default h a).
 Proof.
   intros Hwf Hnd Hreq. destruct (info_wf_parts info Hwf) as (Hn & Hp & Ha & _).
   unfold positional_from_hash. rewrite (distinct_names_nodup _ Hn), (place_all_fresh _ h Hn). cbn [bind].
-  rewrite fill_slots_spec; [|assumption|]. 2:{ intros a Hin E. rewrite hget_last_nodup in E by assumption. intros Hv. exact (Hreq a Hin Hv E). }
+  rewrite fill_slots_spec.
+  2:{ intros a Hin E Hv. rewrite hget_last_nodup in E by assumption. apply is_opt_false_eff in Hv. exact (Hreq a Hin Hv E). }
   cbn [bind]. rewrite firstn_all.
   set (va := map _ (ai_attrs info)). assert (Hlen : length va = length (ai_attrs info)) by apply map_length.
   rewrite <- Hlen. destruct (trim_spec va (ai_attrs info) (ai_req info) Hlen) as (k & Ek & Hk1 & Hk2 & Hk3).
@@ -564,8 +588,7 @@ Proof.
   assert (Hva : nth_error va i = Some (given_or_default h a)).
   { unfold va. rewrite (map_nth_error _ _ _ Hi). unfold given_or_default. now rewrite hget_last_nodup. }
   destruct (Nat.ltb i k) eqn:Eik; [now rewrite Hva|]. apply Nat.ltb_ge in Eik.
-  specialize (Hk3 i a _ Eik Hi Hva). unfold is_default in Hk3. destruct (a_value a) as [d|]; [|discriminate].
-  apply value_eqb_eq in Hk3. congruence.
+  specialize (Hk3 i a _ Eik Hi Hva). exact (is_default_eff a _ (forallb_nth _ _ _ _ Ha Hi) Hk3).
 Qed.
 
 (* ---- Struct.IsInstance on the named-argument struct (structtype.go:297) ---- *)
@@ -640,23 +663,19 @@ Lemma struct_inst_init_spec info h : info_wf info = true ->
   (struct_inst (init_struct info) (VHash h) = true <->
    NoDup (map fst h) /\
    (forall k v, In (k, v) h -> exists a, In a (ai_attrs info) /\ a_name a = k /\ inst (a_type a) v = true) /\
-   (forall a, In a (ai_attrs info) -> a_value a = None -> hget h (a_name a) <> None)).
+   (forall a, In a (ai_attrs info) -> is_opt_attr a = false -> hget h (a_name a) <> None)).
 Proof.
-  intros Hwf. destruct (info_wf_parts info Hwf) as (Hn & _ & Ha & _).
+  intros Hwf. destruct (info_wf_parts info Hwf) as (Hn & _ & _ & _).
   assert (HndE : NoDup (map ekey (init_struct info))) by (rewrite init_struct_keys; now apply nodup_str_NoDup).
   unfold struct_inst. rewrite struct_matched_eq.
   assert (Hok : forallb (elem_ok h) (init_struct info) = true <->
                 forall a, In a (ai_attrs info) ->
-                          match hget h (a_name a) with Some v => inst (a_type a) v = true | None => a_value a <> None end).
+                          match hget h (a_name a) with Some v => inst (a_type a) v = true | None => is_opt_attr a = true end).
   { unfold init_struct. rewrite forallb_forall. split.
     - intros H a Hin. specialize (H _ (in_map _ _ a Hin)). unfold elem_ok in H. cbn [ekey fst snd] in H.
-      destruct (hget h (a_name a)); [exact H|]. rewrite negb_involutive in H.
-      rewrite (attr_wf_opt a) in H by (rewrite forallb_forall in Ha; now apply Ha). unfold has_value in H.
-      now destruct (a_value a).
+      destruct (hget h (a_name a)); [exact H|]. now rewrite negb_involutive in H.
     - intros H e He. apply in_map_iff in He as (a & <- & Hin). specialize (H a Hin). unfold elem_ok. cbn [ekey fst snd].
-      destruct (hget h (a_name a)); [exact H|]. rewrite negb_involutive.
-      rewrite (attr_wf_opt a) by (rewrite forallb_forall in Ha; now apply Ha). unfold has_value.
-      now destruct (a_value a). }
+      destruct (hget h (a_name a)); [exact H|]. now rewrite negb_involutive. }
   split.
   - intros H. destruct (forallb (elem_ok h) (init_struct info)) eqn:E; [|discriminate]. apply Nat.eqb_eq in H.
     apply (present_count _ h HndE) in H as [Hh Hsub]. rewrite init_struct_keys in Hsub.
@@ -664,22 +683,19 @@ Proof.
     + intros k v Hkv. assert (Hk : In k (map fst h)) by (change k with (fst (k, v)); now apply in_map).
       apply Hsub, in_map_iff in Hk as (a & Hname & Hin). exists a. split; [assumption|]. split; [assumption|].
       specialize (Hall a Hin). rewrite Hname, (hget_of_In h k v Hh Hkv) in Hall. exact Hall.
-    + intros a Hin Hv Hg. specialize (Hall a Hin). rewrite Hg in Hall. contradiction.
+    + intros a Hin Hv Hg. specialize (Hall a Hin). rewrite Hg in Hall. congruence.
   - intros (Hh & Hent & Hreq).
     assert (E : forallb (elem_ok h) (init_struct info) = true).
     { apply Hok. intros a Hin. destruct (hget h (a_name a)) as [v|] eqn:Eg.
       - apply hget_In in Eg. destruct (Hent _ _ Eg) as (a' & Hin' & Hname & Hinst).
         now rewrite (same_name_eq _ a a' Hn Hin Hin' (eq_sym Hname)).
-      - intros Hv. exact (Hreq a Hin Hv Eg). }
+      - destruct (is_opt_attr a) eqn:Eo; [reflexivity|]. exfalso. exact (Hreq a Hin Eo Eg). }
     rewrite E. apply Nat.eqb_eq. apply (present_count _ h HndE). split; [assumption|].
     intros k Hk. rewrite init_struct_keys. apply in_map_iff in Hk as ([k' v] & <- & Hkv).
     destruct (Hent _ _ Hkv) as (a & Hin & Hname & _). cbn [fst]. rewrite <- Hname. now apply in_map.
 Qed.
 
 (* ---- positional dispatch (tupletype.go IsInstance3, createNewFunction) ---- *)
-
-Lemma inst_hash_false t h : inst t (VHash h) = false.
-Proof. induction t; cbn [inst]; auto. Qed.
 
 Lemma tuple_elems_nth : forall args ts last, tuple_elems ts last args = true -> (length args <= length ts)%nat ->
   forall i v t, nth_error args i = Some v -> nth_error ts i = Some t -> inst t v = true.
@@ -689,6 +705,16 @@ Proof.
   destruct i as [|i]; cbn [nth_error] in Hv, Ht.
   - congruence.
   - eapply IH; eauto. cbn in Hlen. lia.
+Qed.
+
+Lemma tuple_elems_intro : forall args ts last, (length args <= length ts)%nat ->
+  (forall i v t, nth_error args i = Some v -> nth_error ts i = Some t -> inst t v = true) ->
+  tuple_elems ts last args = true.
+Proof.
+  induction args as [|x args IH]; intros ts last Hlen H; [reflexivity|].
+  destruct ts as [|t0 ts]; [cbn in Hlen; lia|]. cbn [tuple_elems]. apply andb_true_iff. split.
+  - exact (H O x t0 eq_refl eq_refl).
+  - apply IH; [cbn in Hlen; lia|]. intros i v t Hv Ht. exact (H (S i) v t Hv Ht).
 Qed.
 
 Lemma count_required_zero l j q : (q <= j)%nat -> count_required l j q = O.
@@ -710,33 +736,27 @@ Proof.
     replace (i + S n)%nat with (S i + n)%nat by lia. rewrite (IH (S i) n H2). reflexivity.
 Qed.
 
-(* what the constructors guarantee about the value slice of an object *)
-Definition obj_ok (info : ainfo) (vals : list value) : Prop :=
-  (ai_req info <= length vals <= length (ai_attrs info))%nat /\
-  forall i v a, nth_error vals i = Some v -> nth_error (ai_attrs info) i = Some a ->
-                inst (a_type a) v = true \/ is_default a v = true.
-
-Definition positional (args : list value) : Prop := forall h, args <> [VHash h].
-
-Lemma classic_positional args : positional args \/ exists h, args = [VHash h].
+(* the named dispatcher takes the call exactly when the only argument is an instance of the init Struct *)
+Lemma named_dispatch_some info args h : named_dispatch info args = Some h ->
+  args = [VHash h] /\ struct_inst (init_struct info) (VHash h) = true.
 Proof.
-  destruct args as [|v [|v2 r]]; try (left; intros h; discriminate).
-  destruct v; try (left; intros h; discriminate). right. eauto.
+  destruct args as [|v [|v2 r]]; cbn [named_dispatch]; try discriminate; destruct v; try discriminate.
+  destruct (struct_inst (init_struct info) (VHash l)) eqn:E; [|discriminate]. intros H; inversion H; subst. auto.
 Qed.
 
-Lemma new_positional_inv d args o : info_wf (d_info d) = true -> positional args -> new_object d args = Ok o ->
+Lemma named_dispatch_intro info h : struct_inst (init_struct info) (VHash h) = true ->
+  named_dispatch info [VHash h] = Some h.
+Proof. intros H. cbn [named_dispatch]. now rewrite H. Qed.
+
+Lemma new_positional_inv d args o : info_wf (d_info d) = true -> named_dispatch (d_info d) args = None ->
+  new_object d args = Ok o ->
   o = mkObj d args /\ (ai_req (d_info d) <= length args <= length (ai_attrs (d_info d)))%nat /\
   forall i v a, nth_error args i = Some v -> nth_error (ai_attrs (d_info d)) i = Some a -> inst (a_type a) v = true.
 Proof.
   intros Hwf Hpos H. destruct (info_wf_parts _ Hwf) as (_ & Hp & _ & _).
-  assert (Hgen : (if tuple_inst (map a_type (ai_attrs (d_info d)))
-                        (count_required (ai_attrs (d_info d)) O (ai_req (d_info d)))
-                        (length (map a_type (ai_attrs (d_info d)))) args
-                  then ctor_positional d args else Err EIllegalArguments) = Ok o).
-  { unfold new_object in H. destruct args as [|v [|v2 r]]; try exact H; destruct v; try exact H.
-    exfalso. now apply (Hpos l). }
-  clear H. destruct (tuple_inst _ _ _ args) eqn:E; [|discriminate]. unfold ctor_positional in Hgen.
-  inversion Hgen; subst o. split; [reflexivity|]. unfold tuple_inst in E.
+  unfold new_object in H. cbv zeta in H. rewrite Hpos in H.
+  destruct (tuple_inst _ _ _ args) eqn:E; [|discriminate]. unfold ctor_positional in H.
+  inversion H; subst o. split; [reflexivity|]. unfold tuple_inst in E.
   apply andb_true_iff in E as [E E3]. apply andb_true_iff in E as [E1 E2].
   apply Nat.leb_le in E1, E2. rewrite map_length in E2.
   pose proof (count_required_prefix _ O _ Hp) as Hc. cbn [plus] in Hc. rewrite Hc in E1. split; [lia|].
@@ -752,20 +772,21 @@ Lemma lval_some info vals i a : info_wf info = true -> (ai_req info <= length va
 Proof.
   intros Hwf Hreq Hi. destruct (info_wf_parts _ Hwf) as (_ & Hp & Ha & _). unfold lval.
   destruct (nth_error vals i) as [v|] eqn:Ev; [eauto|]. rewrite Hi. apply nth_error_None in Ev.
-  pose proof (req_prefix_nth _ _ _ _ Hp Hi) as Ho. rewrite (attr_wf_opt a (forallb_nth _ _ _ _ Ha Hi)) in Ho.
-  assert (E : Nat.ltb i (ai_req info) = false) by (apply Nat.ltb_ge; lia). rewrite E in Ho.
-  unfold has_value in Ho. destruct (a_value a); [eauto|discriminate].
+  pose proof (req_prefix_nth _ _ _ _ Hp Hi) as Ho.
+  assert (E : Nat.ltb i (ai_req info) = false) by (apply Nat.ltb_ge; lia). rewrite E in Ho. cbn [negb] in Ho.
+  rewrite is_opt_eff in Ho. destruct (eff_value a); [eauto|discriminate].
 Qed.
 
-Lemma new_named_inv d h o : info_wf (d_info d) = true -> new_object d [VHash h] = Ok o ->
+Lemma new_named_inv d args h o : info_wf (d_info d) = true -> named_dispatch (d_info d) args = Some h ->
+  new_object d args = Ok o ->
   NoDup (map fst h) /\
   (forall k v, In (k, v) h -> exists a, In a (ai_attrs (d_info d)) /\ a_name a = k /\ inst (a_type a) v = true) /\
-  (forall a, In a (ai_attrs (d_info d)) -> a_value a = None -> hget h (a_name a) <> None) /\
+  (forall a, In a (ai_attrs (d_info d)) -> is_opt_attr a = false -> hget h (a_name a) <> None) /\
   exists vals, o = mkObj d vals /\ (ai_req (d_info d) <= length vals <= length (ai_attrs (d_info d)))%nat /\
     forall i a, nth_error (ai_attrs (d_info d)) i = Some a ->
                 lval (ai_attrs (d_info d)) vals i = Some (given_or_default h a).
 Proof.
-  intros Hwf H. cbn [new_object] in H. destruct (struct_inst _ _) eqn:E; [|discriminate].
+  intros Hwf Hd H. unfold new_object in H. cbv zeta in H. rewrite Hd in H. apply named_dispatch_some in Hd as [-> E].
   apply (struct_inst_init_spec _ h Hwf) in E as (Hh & Hent & Hreq). split; [assumption|]. split; [assumption|].
   split; [assumption|]. destruct (pfh_spec _ h Hwf Hh Hreq) as (vals & Ev & Hlen & Hl).
   unfold ctor_named in H. rewrite Ev in H. cbn [bind] in H. inversion H; subst o. eauto.
@@ -773,49 +794,68 @@ Qed.
 
 Lemma new_named_ok d h : info_wf (d_info d) = true -> NoDup (map fst h) ->
   (forall k v, In (k, v) h -> exists a, In a (ai_attrs (d_info d)) /\ a_name a = k /\ inst (a_type a) v = true) ->
-  (forall a, In a (ai_attrs (d_info d)) -> a_value a = None -> hget h (a_name a) <> None) ->
+  (forall a, In a (ai_attrs (d_info d)) -> is_opt_attr a = false -> hget h (a_name a) <> None) ->
+  named_dispatch (d_info d) [VHash h] = Some h /\
   exists vals, new_object d [VHash h] = Ok (mkObj d vals) /\
     (ai_req (d_info d) <= length vals <= length (ai_attrs (d_info d)))%nat /\
     forall i a, nth_error (ai_attrs (d_info d)) i = Some a ->
                 lval (ai_attrs (d_info d)) vals i = Some (given_or_default h a).
 Proof.
-  intros Hwf Hh Hent Hreq. cbn [new_object].
-  rewrite (proj2 (struct_inst_init_spec _ h Hwf) (conj Hh (conj Hent Hreq))).
+  intros Hwf Hh Hent Hreq.
+  pose proof (named_dispatch_intro _ h (proj2 (struct_inst_init_spec _ h Hwf) (conj Hh (conj Hent Hreq)))) as Hd.
+  split; [exact Hd|]. unfold new_object. cbv zeta. rewrite Hd.
   destruct (pfh_spec _ h Hwf Hh Hreq) as (vals & Ev & Hlen & Hl). exists vals. unfold ctor_named. rewrite Ev. cbn [bind].
   eauto.
 Qed.
 
+(* attribute.Default / the drop condition of makeValueHash, in terms of the value the attribute contributes *)
+Definition eff_default (a : attr) (v : value) : bool :=
+  match eff_value a with Some d => value_eqb d v | None => false end.
+
+Lemma eff_default_eff a v : eff_default a v = true -> eff_value a = Some v.
+Proof.
+  unfold eff_default. destruct (eff_value a) as [d|]; [|discriminate]. intros H. apply value_eqb_eq in H. now subst.
+Qed.
+
+(* what the constructors guarantee about the value slice of an object *)
+Definition obj_ok (info : ainfo) (vals : list value) : Prop :=
+  (ai_req info <= length vals <= length (ai_attrs info))%nat /\
+  forall i v a, nth_error vals i = Some v -> nth_error (ai_attrs info) i = Some a ->
+                inst (a_type a) v = true \/ eff_default a v = true.
+
 Lemma new_object_ok d args o : info_wf (d_info d) = true -> new_object d args = Ok o ->
   exists vals, o = mkObj d vals /\ obj_ok (d_info d) vals.
 Proof.
-  intros Hwf H. destruct (classic_positional args) as [Hpos|(h & ->)].
-  - destruct (new_positional_inv _ _ _ Hwf Hpos H) as (-> & Hlen & Hinst). exists args. split; [reflexivity|].
-    split; [assumption|]. intros i v a Hv Ha. left. eauto.
-  - destruct (new_named_inv _ _ _ Hwf H) as (Hh & Hent & Hreq & vals & -> & Hlen & Hl). exists vals.
+  intros Hwf H. destruct (named_dispatch (d_info d) args) as [h|] eqn:Hd.
+  - destruct (new_named_inv _ _ _ _ Hwf Hd H) as (Hh & Hent & Hreq & vals & -> & Hlen & Hl). exists vals.
     split; [reflexivity|]. split; [assumption|]. intros i v a Hv Ha. specialize (Hl i a Ha). unfold lval in Hl.
     rewrite Hv in Hl. inversion Hl as [Hvv]. unfold given_or_default. destruct (hget h (a_name a)) as [w|] eqn:Eg.
     + left. apply hget_In in Eg. destruct (Hent _ _ Eg) as (a' & Hin' & Hname & Hinst).
       destruct (info_wf_parts _ Hwf) as (Hn & _ & _ & _).
       rewrite (same_name_eq _ a a' Hn (nth_error_In _ _ Ha) Hin' (eq_sym Hname)). exact Hinst.
-    + right. unfold is_default, default_of. destruct (a_value a) as [dv|] eqn:Ed; [apply value_eqb_refl|].
-      exfalso. exact (Hreq a (nth_error_In _ _ Ha) Ed Eg).
+    + right. unfold eff_default, default_of. destruct (eff_value a) as [dv|] eqn:Ed; [apply value_eqb_refl|].
+      exfalso. apply (Hreq a (nth_error_In _ _ Ha)); [now apply is_opt_false_eff|exact Eg].
+  - destruct (new_positional_inv _ _ _ Hwf Hd H) as (-> & Hlen & Hinst). exists args. split; [reflexivity|].
+    split; [assumption|]. intros i v a Hv Ha. left. eauto.
 Qed.
 
 (* ---- InitHash (makeValueHash) ---- *)
 
 Lemma drop_cond a v : attr_wf a = true ->
-  (is_default a v || (kind_eqb (a_kind a) KGivenOrDerived && value_eqb v VUndef)) = is_default a v.
+  (is_default a v || (kind_eqb (a_kind a) KGivenOrDerived && value_eqb v VUndef)) = eff_default a v.
 Proof.
-  intros Hwf. destruct (kind_eqb (a_kind a) KGivenOrDerived && value_eqb v VUndef) eqn:E; [|apply orb_false_r].
-  apply andb_true_iff in E as [Hk Hv]. apply value_eqb_eq in Hv; subst v. unfold is_default.
-  rewrite (attr_wf_god a Hwf Hk). reflexivity.
+  intros Hwf. unfold attr_wf in Hwf. apply andb_true_iff in Hwf as [H _]. unfold eff_default, eff_value, is_default.
+  destruct (kind_eqb (a_kind a) KGivenOrDerived); cbn [negb orb andb] in *.
+  - rewrite (value_eqb_sym v VUndef). destruct (a_value a) as [d|]; [|reflexivity].
+    apply value_eqb_eq in H; subst d. apply orb_diag.
+  - destruct (a_value a); [apply orb_false_r|reflexivity].
 Qed.
 
 Lemma mvh_spec : forall vals attrs, forallb attr_wf attrs = true -> (length vals <= length attrs)%nat ->
   exists h, make_value_hash attrs vals = Ok h /\
     (forall k v, In (k, v) h -> exists i a, nth_error attrs i = Some a /\ nth_error vals i = Some v /\
-                                           a_name a = k /\ is_default a v = false) /\
-    (forall i a v, nth_error attrs i = Some a -> nth_error vals i = Some v -> is_default a v = false ->
+                                           a_name a = k /\ eff_default a v = false) /\
+    (forall i a v, nth_error attrs i = Some a -> nth_error vals i = Some v -> eff_default a v = false ->
                    In (a_name a, v) h) /\
     (NoDup (map a_name attrs) -> NoDup (map fst h)).
 Proof.
@@ -829,7 +869,7 @@ Proof.
     assert (Hkeys : forall k, In k (map fst rest) -> In k (map a_name ra)).
     { intros k Hk. apply in_map_iff in Hk as ([k' w] & <- & Hin). destruct (H1 _ _ Hin) as (i & a' & Hi & _ & Hn & _).
       cbn [fst]. rewrite <- Hn. apply in_map. eapply nth_error_In; eauto. }
-    destruct (is_default a v) eqn:Ed.
+    destruct (eff_default a v) eqn:Ed.
     + exists rest. split; [reflexivity|]. split; [|split].
       * intros k w Hin. destruct (H1 _ _ Hin) as (i & a' & Hi & Hv & Hn & Hd). exists (S i), a'. auto.
       * intros [|i] a' w Hi Hv Hd; cbn [nth_error] in Hi, Hv; [congruence|eauto].
@@ -864,8 +904,7 @@ Proof.
   induction idxs as [|i r IH]; intros Hlt; cbn [eq_at forallb]; [reflexivity|].
   cbn [forallb] in Hlt. apply andb_true_iff in Hlt as [Hi Hr]. apply Nat.ltb_lt in Hi.
   destruct (nth_error (ai_attrs (d_info d)) i) as [a|] eqn:Ei; [|apply nth_error_None in Ei; lia].
-  pose proof (forallb_nth _ _ _ _ Ha Ei) as Hwa.
-  rewrite (get_nth d v1 i a Hn Hwa Ei), (get_nth d v2 i a Hn Hwa Ei).
+  rewrite (get_nth d v1 i a Hn Ei), (get_nth d v2 i a Hn Ei).
   destruct (lval_some _ v1 i a Hwf H1 Ei) as (x & Ex). destruct (lval_some _ v2 i a Hwf H2 Ei) as (y & Ey).
   rewrite Ex, Ey. cbn [bind]. destruct (opt_value_eqb (Some x) (Some y)); cbn [andb]; [now apply IH|reflexivity].
 Qed.
@@ -938,13 +977,13 @@ Proof.
 Qed.
 
 Lemma required_index info i a : info_wf info = true -> nth_error (ai_attrs info) i = Some a ->
-  (a_value a = None <-> (i < ai_req info)%nat).
+  (is_opt_attr a = false <-> (i < ai_req info)%nat).
 Proof.
-  intros Hwf Hi. destruct (info_wf_parts _ Hwf) as (_ & Hp & Ha & _).
-  pose proof (req_prefix_nth _ _ _ _ Hp Hi) as Ho. rewrite (attr_wf_opt a (forallb_nth _ _ _ _ Ha Hi)) in Ho.
-  unfold has_value in Ho. destruct (Nat.ltb i (ai_req info)) eqn:E.
-  - apply Nat.ltb_lt in E. destruct (a_value a); [discriminate|tauto].
-  - apply Nat.ltb_ge in E. destruct (a_value a); [|discriminate]. split; [discriminate|lia].
+  intros Hwf Hi. destruct (info_wf_parts _ Hwf) as (_ & Hp & _ & _).
+  pose proof (req_prefix_nth _ _ _ _ Hp Hi) as Ho.
+  destruct (Nat.ltb i (ai_req info)) eqn:E; cbn [negb] in Ho; rewrite Ho.
+  - apply Nat.ltb_lt in E. split; auto.
+  - apply Nat.ltb_ge in E. split; [discriminate|lia].
 Qed.
 
 Lemma nth_error_map_inv {A B} (f : A -> B) l i y : nth_error (map f l) i = Some y ->
@@ -956,95 +995,141 @@ Proof.
 Qed.
 
 (* positional and named construction with the same values yield equal objects *)
-Lemma pos_named_equal_info d args o : info_wf (d_info d) = true -> positional args -> new_object d args = Ok o ->
-  exists o', new_object d [VHash (combine (map a_name (ai_attrs (d_info d))) args)] = Ok o' /\
-             obj_eqb o o' = Ok true /\ obj_eqb o' o = Ok true.
+Lemma pos_named_equal_info d args o : info_wf (d_info d) = true -> named_dispatch (d_info d) args = None ->
+  new_object d args = Ok o ->
+  let h := combine (map a_name (ai_attrs (d_info d))) args in
+  named_dispatch (d_info d) [VHash h] = Some h /\
+  exists o', new_object d [VHash h] = Ok o' /\ obj_eqb o o' = Ok true /\ obj_eqb o' o = Ok true.
 Proof.
   intros Hwf Hpos H. destruct (new_positional_inv _ _ _ Hwf Hpos H) as (-> & Hlen & Hinst).
   destruct (info_wf_parts _ Hwf) as (Hn & _ & _ & _).
-  set (h := combine (map a_name (ai_attrs (d_info d))) args).
-  destruct (new_named_ok d h Hwf) as (vals & Ev & Hl & Hv).
+  set (h := combine (map a_name (ai_attrs (d_info d))) args). cbv zeta.
+  destruct (new_named_ok d h Hwf) as (Hd & vals & Ev & Hl & Hv).
   - apply combine_keys_nodup. now apply nodup_str_NoDup.
   - intros k v Hin. apply in_combine_nth in Hin as (i & Hk & Hvi). apply nth_error_map_inv in Hk as (a & Ha & <-).
     exists a. split; [eapply nth_error_In; eauto|]. split; [reflexivity|]. eauto.
   - intros a Hin Hnone. apply In_nth_error in Hin as (i & Hi). unfold h. rewrite (hget_combine _ args i a Hn Hi).
     apply (required_index _ i a Hwf Hi) in Hnone. intros E. apply nth_error_None in E. lia.
-  - exists (mkObj d vals). split; [exact Ev|].
+  - split; [exact Hd|]. exists (mkObj d vals). split; [exact Ev|].
     assert (Hsame : forall i a, nth_error (ai_attrs (d_info d)) i = Some a -> lval (ai_attrs (d_info d)) args i = lval (ai_attrs (d_info d)) vals i).
     { intros i a Hi. rewrite (Hv i a Hi). unfold lval, given_or_default, h. rewrite (hget_combine _ args i a Hn Hi), Hi.
-      destruct (nth_error args i) eqn:Ea; [reflexivity|]. unfold default_of. destruct (a_value a) eqn:Ed; [reflexivity|].
-      apply (required_index _ i a Hwf Hi) in Ed. apply nth_error_None in Ea. lia. }
+      destruct (nth_error args i) eqn:Ea; [reflexivity|]. unfold default_of. destruct (eff_value a) eqn:Ed; [reflexivity|].
+      apply is_opt_false_eff in Ed. apply (required_index _ i a Hwf Hi) in Ed. apply nth_error_None in Ea. lia. }
     split; apply obj_eqb_same_lval; try assumption; try lia. intros i a Hi. symmetry. eauto.
+Qed.
+
+(* ... and conversely: when the named constructor takes {name_i => arg_i} for a tuple no longer than the
+   layout, the positional constructor takes the tuple (unless the tuple is itself one named-argument hash)
+   and builds an equal object *)
+Lemma named_pos_equal_info d args o' : info_wf (d_info d) = true ->
+  let h := combine (map a_name (ai_attrs (d_info d))) args in
+  (length args <= length (ai_attrs (d_info d)))%nat ->
+  named_dispatch (d_info d) [VHash h] = Some h -> new_object d [VHash h] = Ok o' ->
+  named_dispatch (d_info d) args = None ->
+  exists o, new_object d args = Ok o /\ obj_eqb o o' = Ok true /\ obj_eqb o' o = Ok true.
+Proof.
+  intros Hwf h Hlen Hd H Hpos. destruct (info_wf_parts _ Hwf) as (Hn & Hp & _ & _).
+  destruct (new_named_inv _ _ _ _ Hwf Hd H) as (Hh & Hent & Hreq & vals & -> & Hl & Hv).
+  assert (Hinst : forall i v a, nth_error args i = Some v -> nth_error (ai_attrs (d_info d)) i = Some a ->
+                                inst (a_type a) v = true).
+  { intros i v a Ha Hi. assert (Hin : In (a_name a, v) h).
+    { apply hget_In. unfold h. now rewrite (hget_combine _ args i a Hn Hi). }
+    destruct (Hent _ _ Hin) as (a' & Hin' & Hname & Hi').
+    now rewrite (same_name_eq _ a a' Hn (nth_error_In _ _ Hi) Hin' (eq_sym Hname)). }
+  pose proof (req_prefix_len _ _ Hp) as Hrl.
+  assert (Hreqlen : (ai_req (d_info d) <= length args)%nat).
+  { destruct (ai_req (d_info d)) as [|r] eqn:Er; [lia|].
+    destruct (nth_error (ai_attrs (d_info d)) r) as [a|] eqn:Hi; [|apply nth_error_None in Hi; lia].
+    assert (Ho : is_opt_attr a = false) by (apply (required_index _ r a Hwf Hi); lia).
+    pose proof (Hreq a (nth_error_In _ _ Hi) Ho) as Hg. unfold h in Hg. rewrite (hget_combine _ args r a Hn Hi) in Hg.
+    assert (r < length args)%nat by (apply nth_error_Some; exact Hg). lia. }
+  assert (Hnew : new_object d args = Ok (mkObj d args)).
+  { unfold new_object. cbv zeta. rewrite Hpos. unfold tuple_inst.
+    pose proof (count_required_prefix _ O _ Hp) as Hc. cbn [plus] in Hc. rewrite Hc, map_length.
+    rewrite (proj2 (Nat.leb_le _ _) Hreqlen), (proj2 (Nat.leb_le _ _) Hlen). cbn [andb].
+    destruct (map a_type (ai_attrs (d_info d))) as [|t ts] eqn:Ets; [reflexivity|].
+    rewrite <- Ets. rewrite tuple_elems_intro; [reflexivity|now rewrite map_length|].
+    intros i v t' Hv' Ht. apply nth_error_map_inv in Ht as (a & Hi & <-). eauto. }
+  exists (mkObj d args). split; [exact Hnew|].
+  assert (Hsame : forall i a, nth_error (ai_attrs (d_info d)) i = Some a -> lval (ai_attrs (d_info d)) args i = lval (ai_attrs (d_info d)) vals i).
+  { intros i a Hi. rewrite (Hv i a Hi). unfold lval, given_or_default. fold h. unfold h at 1.
+    rewrite (hget_combine _ args i a Hn Hi), Hi.
+    destruct (nth_error args i) eqn:Ea; [reflexivity|]. unfold default_of. destruct (eff_value a) eqn:Ed; [reflexivity|].
+    apply is_opt_false_eff in Ed. apply (required_index _ i a Hwf Hi) in Ed. apply nth_error_None in Ea. lia. }
+  split; apply obj_eqb_same_lval; try assumption; try lia. intros i a Hi. symmetry. eauto.
 Qed.
 
 (* rebuilding an object from its init-hash yields an equal object *)
 Lemma roundtrip_vals d vals : info_wf (d_info d) = true -> obj_ok (d_info d) vals ->
-  exists h vals', init_hash (mkObj d vals) = Ok h /\ new_object d [VHash h] = Ok (mkObj d vals') /\
+  exists h vals', init_hash (mkObj d vals) = Ok h /\ named_dispatch (d_info d) [VHash h] = Some h /\
+    new_object d [VHash h] = Ok (mkObj d vals') /\
     obj_eqb (mkObj d vals) (mkObj d vals') = Ok true /\ obj_eqb (mkObj d vals') (mkObj d vals) = Ok true.
 Proof.
   intros Hwf [Hlen Hok]. destruct (info_wf_parts _ Hwf) as (Hn & _ & Ha & _).
   destruct (mvh_spec vals (ai_attrs (d_info d)) Ha) as (h & Eh & H1 & H2 & H3); [lia|].
   assert (Hget : forall i a, nth_error (ai_attrs (d_info d)) i = Some a ->
              hget h (a_name a) = match nth_error vals i with
-                                 | Some v => if is_default a v then None else Some v
+                                 | Some v => if eff_default a v then None else Some v
                                  | None => None end).
   { intros i a Hi. specialize (H3 (proj1 (nodup_str_NoDup _) Hn)).
     destruct (hget h (a_name a)) as [w|] eqn:Eg.
     - apply hget_In in Eg. destruct (H1 _ _ Eg) as (j & a' & Hj & Hv & Hname & Hd).
       assert (j = i) by (eapply nth_error_same_name; eauto). subst j. rewrite Hi in Hj. inversion Hj; subst a'.
       now rewrite Hv, Hd.
-    - destruct (nth_error vals i) as [v|] eqn:Ev; [|reflexivity]. destruct (is_default a v) eqn:Ed; [reflexivity|].
+    - destruct (nth_error vals i) as [v|] eqn:Ev; [|reflexivity]. destruct (eff_default a v) eqn:Ed; [reflexivity|].
       pose proof (H2 i a v Hi Ev Ed) as Hin. apply (hget_of_In h _ _ H3) in Hin. congruence. }
-  destruct (new_named_ok d h Hwf) as (vals' & Ev & Hl & Hv).
+  destruct (new_named_ok d h Hwf) as (Hd & vals' & Ev & Hl & Hv).
   - apply H3. now apply nodup_str_NoDup.
   - intros k v Hin. destruct (H1 _ _ Hin) as (i & a & Hi & Hvi & Hname & Hd). exists a.
     split; [eapply nth_error_In; eauto|]. split; [assumption|]. destruct (Hok i v a Hvi Hi) as [Hinst|Hdef]; [assumption|congruence].
   - intros a Hin Hnone. apply In_nth_error in Hin as (i & Hi). rewrite (Hget i a Hi).
-    apply (required_index _ i a Hwf Hi) in Hnone. destruct (nth_error vals i) as [v|] eqn:Evi.
-    + unfold is_default. apply (required_index _ i a Hwf Hi) in Hnone. rewrite Hnone. discriminate.
+    pose proof (proj1 (required_index _ i a Hwf Hi) Hnone) as Hlt. destruct (nth_error vals i) as [v|] eqn:Evi.
+    + unfold eff_default. apply is_opt_false_eff in Hnone. rewrite Hnone. discriminate.
     + apply nth_error_None in Evi. lia.
-  - exists h, vals'. split; [exact Eh|]. split; [exact Ev|].
+  - exists h, vals'. split; [exact Eh|]. split; [exact Hd|]. split; [exact Ev|].
     assert (Hsame : forall i a, nth_error (ai_attrs (d_info d)) i = Some a ->
                                 lval (ai_attrs (d_info d)) vals i = lval (ai_attrs (d_info d)) vals' i).
     { intros i a Hi. rewrite (Hv i a Hi). unfold lval, given_or_default. rewrite (Hget i a Hi), Hi.
       destruct (nth_error vals i) as [v|] eqn:Evi.
-      - destruct (is_default a v) eqn:Ed; [|reflexivity]. unfold is_default in Ed. unfold default_of.
-        destruct (a_value a) as [dv|]; [|discriminate]. apply value_eqb_eq in Ed. congruence.
-      - unfold default_of. destruct (a_value a) eqn:Ed; [reflexivity|].
-        apply (required_index _ i a Hwf Hi) in Ed. apply nth_error_None in Evi. lia. }
+      - destruct (eff_default a v) eqn:Ed; [|reflexivity]. apply eff_default_eff in Ed. unfold default_of. now rewrite Ed.
+      - unfold default_of. destruct (eff_value a) eqn:Ed; [reflexivity|].
+        apply is_opt_false_eff in Ed. apply (required_index _ i a Hwf Hi) in Ed. apply nth_error_None in Evi. lia. }
     split; apply obj_eqb_same_lval; try assumption; try lia. intros i a Hi. symmetry. eauto.
 Qed.
 
 Lemma init_hash_roundtrip_info d args o : info_wf (d_info d) = true -> new_object d args = Ok o ->
-  exists h o', init_hash o = Ok h /\ new_object d [VHash h] = Ok o' /\
+  exists h o', init_hash o = Ok h /\ named_dispatch (d_info d) [VHash h] = Some h /\ new_object d [VHash h] = Ok o' /\
                obj_eqb o o' = Ok true /\ obj_eqb o' o = Ok true.
 Proof.
   intros Hwf H. destruct (new_object_ok _ _ _ Hwf H) as (vals & -> & Hok).
-  destruct (roundtrip_vals d vals Hwf Hok) as (h & vals' & ? & ? & ? & ?). exists h, (mkObj d vals'). auto.
+  destruct (roundtrip_vals d vals Hwf Hok) as (h & vals' & ? & ? & ? & ? & ?). exists h, (mkObj d vals'). auto.
 Qed.
 
 (* each attribute reads back the value given or its default *)
-Lemma get_positional_info d args o i a : info_wf (d_info d) = true -> positional args -> new_object d args = Ok o ->
+Lemma get_positional_info d args o i a : info_wf (d_info d) = true -> named_dispatch (d_info d) args = None ->
+  new_object d args = Ok o ->
   nth_error (ai_attrs (d_info d)) i = Some a ->
   get o (a_name a) = Ok (Some (match nth_error args i with Some v => v | None => default_of a end)) /\
-  (nth_error args i = None -> a_value a <> None).
+  (nth_error args i = None -> is_opt_attr a = true).
 Proof.
   intros Hwf Hpos H Hi. destruct (new_positional_inv _ _ _ Hwf Hpos H) as (-> & Hlen & _).
-  destruct (info_wf_parts _ Hwf) as (Hn & _ & Ha & _).
-  rewrite (get_nth d args i a Hn (forallb_nth _ _ _ _ Ha Hi) Hi). unfold lval. rewrite Hi.
+  destruct (info_wf_parts _ Hwf) as (Hn & _ & _ & _).
+  rewrite (get_nth d args i a Hn Hi). unfold lval. rewrite Hi.
   destruct (nth_error args i) as [v|] eqn:Ev; [split; [reflexivity|discriminate]|].
-  apply nth_error_None in Ev. unfold default_of. destruct (a_value a) eqn:Ed; [split; [reflexivity|discriminate]|].
-  apply (required_index _ i a Hwf Hi) in Ed. lia.
+  apply nth_error_None in Ev. unfold default_of. destruct (eff_value a) eqn:Ed.
+  - split; [reflexivity|]. intros _. apply is_opt_true_eff. congruence.
+  - apply is_opt_false_eff in Ed. apply (required_index _ i a Hwf Hi) in Ed. lia.
 Qed.
 
-Lemma get_named_info d h o a : info_wf (d_info d) = true -> new_object d [VHash h] = Ok o ->
+Lemma get_named_info d args h o a : info_wf (d_info d) = true -> named_dispatch (d_info d) args = Some h ->
+  new_object d args = Ok o ->
   In a (ai_attrs (d_info d)) ->
-  get o (a_name a) = Ok (Some (given_or_default h a)) /\ (hget h (a_name a) = None -> a_value a <> None).
+  get o (a_name a) = Ok (Some (given_or_default h a)) /\ (hget h (a_name a) = None -> is_opt_attr a = true).
 Proof.
-  intros Hwf H Hin. destruct (new_named_inv _ _ _ Hwf H) as (_ & _ & Hreq & vals & -> & _ & Hl).
-  destruct (info_wf_parts _ Hwf) as (Hn & _ & Ha & _). apply In_nth_error in Hin as Hi. destruct Hi as (i & Hi).
-  rewrite (get_nth d vals i a Hn (forallb_nth _ _ _ _ Ha Hi) Hi), (Hl i a Hi). split; [reflexivity|].
-  intros Hg Hv. exact (Hreq a Hin Hv Hg).
+  intros Hwf Hd H Hin. destruct (new_named_inv _ _ _ _ Hwf Hd H) as (_ & _ & Hreq & vals & -> & _ & Hl).
+  destruct (info_wf_parts _ Hwf) as (Hn & _ & _ & _). apply In_nth_error in Hin as Hi. destruct Hi as (i & Hi).
+  rewrite (get_nth d vals i a Hn Hi), (Hl i a Hi). split; [reflexivity|].
+  intros Hg. destruct (is_opt_attr a) eqn:Eo; [reflexivity|]. exfalso. exact (Hreq a Hin Eo Hg).
 Qed.
 
 (* reading never faults and never misses a value on a constructed object *)
@@ -1054,7 +1139,7 @@ Proof.
   intros Hwf H. destruct (new_object_ok _ _ _ Hwf H) as (vals & -> & [Hlen _]).
   destruct (info_wf_parts _ Hwf) as (Hn & _ & Ha & _).
   destruct (name_to_pos (ai_attrs (d_info d)) n) as [i|] eqn:E.
-  - apply name_to_pos_sound in E as (a & Hi & <-). rewrite (get_nth d vals i a Hn (forallb_nth _ _ _ _ Ha Hi) Hi).
+  - apply name_to_pos_sound in E as (a & Hi & <-). rewrite (get_nth d vals i a Hn Hi).
     destruct (lval_some _ vals i a Hwf (proj1 Hlen) Hi) as (v & ->). eauto.
   - exists None. apply get_unknown. eapply ntp_none_inv. exact E.
 Qed.
@@ -1074,14 +1159,14 @@ Proof.
   - rewrite (obj_eqb_true_iff d v1 v2 Hwf (proj1 L1) (proj1 L2)). unfold eq_names. split.
     + intros H n Hin. apply in_map_iff in Hin as (i & <- & Hi). specialize (H i Hi).
       destruct (nth_error (ai_attrs (d_info d)) i) as [a|] eqn:Ei.
-      * rewrite !(get_nth d _ i a Hn (forallb_nth _ _ _ _ Ha Ei) Ei). now rewrite H.
+      * rewrite !(get_nth d _ i a Hn Ei). now rewrite H.
       * rewrite forallb_forall in He. specialize (He i Hi). apply Nat.ltb_lt in He. apply nth_error_None in Ei. lia.
     + intros H i Hi. rewrite forallb_forall in He. pose proof (He i Hi) as Hlt. apply Nat.ltb_lt in Hlt.
       destruct (nth_error (ai_attrs (d_info d)) i) as [a|] eqn:Ei; [|apply nth_error_None in Ei; lia].
       assert (Hin : In (a_name a) (map (fun i => match nth_error (ai_attrs (d_info d)) i with
                                                  | Some a => a_name a | None => [] end) (ai_eq (d_info d)))).
       { apply in_map_iff. exists i. now rewrite Ei. }
-      specialize (H _ Hin). rewrite !(get_nth d _ i a Hn (forallb_nth _ _ _ _ Ha Ei) Ei) in H.
+      specialize (H _ Hin). rewrite !(get_nth d _ i a Hn Ei) in H.
       destruct (lval_some _ v1 i a Hwf (proj1 L1) Ei) as (x & Ex). destruct (lval_some _ v2 i a Hwf (proj1 L2) Ei) as (y & Ey).
       rewrite Ex, Ey in *. congruence.
   - rewrite (obj_eqb_spec d v1 v2 Hwf (proj1 L1) (proj1 L2)). eauto.
